@@ -1,5 +1,704 @@
+//! Workload "simple": the simple iterator against the documented view of the raw data
+//! (C05: all 64 option vectors on every file) and the normalisation model (C13).
+
+use crate::dev::Dev;
+use crate::json::J;
+use crate::models::*;
+use crate::obs::*;
+use crate::rng::Rng;
+use crate::scene::*;
 use crate::{Args, Reporter};
-pub fn run(_a: &Args, _rep: &mut Reporter) {
-    eprintln!("workload not built yet");
-    std::process::exit(2);
+use e57::*;
+use std::io::Cursor;
+
+fn tame_point(r: &mut Rng, proto: &[Record], wild: bool) -> RawValues {
+    proto
+        .iter()
+        .map(|x| match &x.data_type {
+            RecordDataType::Single { min: None, max: None } => RecordValue::Single(match r.usize(12) {
+                0 => 0.0,
+                1 => -0.0,
+                2 if wild => f32::INFINITY,
+                3 if wild => f32::NAN,
+                4 => 1.0,
+                _ => (r.range(-1_000_000, 1_000_000)) as f32 / 1000.0,
+            }),
+            RecordDataType::Double { min: None, max: None } => RecordValue::Double(match r.usize(12) {
+                0 => 0.0,
+                1 => -0.0,
+                2 if wild => f64::NEG_INFINITY,
+                3 if wild => f64::NAN,
+                4 => -1.0,
+                _ => (r.range(-1_000_000_000, 1_000_000_000)) as f64 / 100_000.0,
+            }),
+            d => gen_value(r, d, false),
+        })
+        .collect()
+}
+
+/// make scaled integer types tame (moderate scale) so that real values stay well-conditioned
+fn tame_types(r: &mut Rng, proto: &mut [Record]) {
+    for x in proto.iter_mut() {
+        if let RecordDataType::ScaledInteger { min, max, .. } = x.data_type {
+            let w = bits_for(min, max);
+            if w > 40 {
+                let w2 = 1 + r.usize(32);
+                let (mi, ma) = gen_int_range(r, w2);
+                x.data_type = RecordDataType::ScaledInteger { min: mi, max: ma, scale: *r.pick(&[1.0, 0.001, 0.5, -0.25]), offset: *r.pick(&[0.0, -100.0, 12.5]) };
+            }
+        }
+        if let RecordDataType::Integer { min, max } = x.data_type {
+            if bits_for(min, max) > 52 && !matches!(x.name, RecordName::RowIndex | RecordName::ColumnIndex | RecordName::ReturnIndex | RecordName::ReturnCount) {
+                let w2 = 1 + r.usize(40);
+                let (mi, ma) = gen_int_range(r, w2);
+                x.data_type = RecordDataType::Integer { min: mi, max: ma };
+            }
+        }
+    }
+}
+
+/// does any complete limit pair of the descriptor have min > max (as stored values of one type)?
+fn has_reversed_limits(pc: &PointCloud) -> bool {
+    let rev = |a: &Option<RecordValue>, b: &Option<RecordValue>| -> bool {
+        match (a, b) {
+            (Some(RecordValue::Single(x)), Some(RecordValue::Single(y))) => !(x <= y) || !x.is_finite() || !y.is_finite(),
+            (Some(RecordValue::Double(x)), Some(RecordValue::Double(y))) => !(x <= y) || !x.is_finite() || !y.is_finite(),
+            (Some(RecordValue::Integer(x)), Some(RecordValue::Integer(y))) => x > y,
+            (Some(RecordValue::ScaledInteger(x)), Some(RecordValue::ScaledInteger(y))) => x > y,
+            _ => false,
+        }
+    };
+    let mut r = false;
+    if let Some(l) = &pc.intensity_limits {
+        r |= rev(&l.intensity_min, &l.intensity_max);
+    }
+    if let Some(l) = &pc.color_limits {
+        r |= rev(&l.red_min, &l.red_max) || rev(&l.green_min, &l.green_max) || rev(&l.blue_min, &l.blue_max);
+    }
+    r
+}
+
+struct FileCase {
+    bytes: Vec<u8>,
+    label: String,
+}
+
+fn c05_make_file(r: &mut Rng, idx: u64, cover: &mut crate::Cover) -> Option<FileCase> {
+    let mut k = Knobs::base();
+    k.max_items = 3;
+    k.big_points = r.chance(1, 12);
+    k.nan_ok = false;
+    let mut scene = gen_scene(r, &k, cover);
+    let wild = r.chance(1, 6);
+    // out-of-set invalid-state values: written under an extension name and renamed by the XML transformer
+    let mut rename: Vec<(String, String)> = Vec::new();
+    let want_bad_state = r.chance(1, 8);
+    let mut has_pc = false;
+    let mut new_items = Vec::new();
+    let mut ext_added = false;
+    for it in scene.items.drain(..) {
+        match it {
+            Item::Pc(mut pc) => {
+                has_pc = true;
+                tame_types(r, &mut pc.prototype);
+                if want_bad_state && rename.is_empty() {
+                    use RecordName::*;
+                    let cands = [(CartesianInvalidState, "cartesianInvalidState", CartesianX, 3i64), (SphericalInvalidState, "sphericalInvalidState", SphericalAzimuth, 3), (IsColorInvalid, "isColorInvalid", ColorRed, 3), (IsIntensityInvalid, "isIntensityInvalid", Intensity, 3)];
+                    let (flag, tag, needs, maxv) = r.pick(&cands).clone();
+                    if pc.prototype.iter().any(|x| x.name == needs) {
+                        pc.prototype.retain(|x| x.name != flag);
+                        if !ext_added {
+                            new_items.push(Item::Ext(Extension::new("hx", "http://harness.invalid/hx")));
+                            ext_added = true;
+                        }
+                        let alias = format!("alias{}", tag);
+                        pc.prototype.push(Record { name: Unknown { namespace: "hx".into(), name: alias.clone() }, data_type: RecordDataType::Integer { min: 0, max: maxv } });
+                        rename.push((format!("hx:{}", alias), tag.to_string()));
+                        cover.hit(&format!("c05:out-of-set-state:{}", tag));
+                    }
+                }
+                let n = pc.points.len();
+                pc.points = (0..n).map(|_| tame_point(r, &pc.prototype, wild)).collect();
+                if r.chance(2, 3) {
+                    pc.meta.transform = Some(Transform {
+                        rotation: gen_unit_quat(r),
+                        translation: Translation { x: (r.range(-10000, 10000)) as f64 / 10.0, y: (r.range(-10000, 10000)) as f64 / 10.0, z: (r.range(-100, 100)) as f64 },
+                    });
+                    cover.hit("c05:pose");
+                } else {
+                    pc.meta.transform = None;
+                }
+                new_items.push(Item::Pc(pc));
+            }
+            other => new_items.push(other),
+        }
+    }
+    if !has_pc {
+        return None;
+    }
+    scene.items = new_items;
+    scene.xml_mode = XmlMode::Plain;
+    let dev = Dev::empty();
+    // run by hand when a rename is needed (finalize_customized_xml), otherwise the standard runner
+    let bytes = if rename.is_empty() {
+        let run = run_scene(&scene, dev.clone(), Judge::Conforming);
+        if !run.finalized {
+            return None;
+        }
+        dev.bytes()
+    } else {
+        let run = run_scene_custom(&scene, dev.clone(), &rename);
+        if !run {
+            return None;
+        }
+        dev.bytes()
+    };
+    Some(FileCase { bytes, label: format!("program:{}", idx) })
+}
+
+/// like run_scene for conforming scenes, but finalizes with a renaming XML transformer
+fn run_scene_custom(scene: &Scene, dev: Dev, rename: &[(String, String)]) -> bool {
+    let r = guarded(|| -> Result<()> {
+        let mut w = E57Writer::new(dev.clone(), &scene.guid)?;
+        for it in &scene.items {
+            match it {
+                Item::Ext(e) => w.register_extension(e.clone())?,
+                Item::Blob(b) => {
+                    let mut rd: &[u8] = b;
+                    w.add_blob(&mut rd)?;
+                }
+                Item::Img(_) => {}
+                Item::Pc(pc) => {
+                    let mut pw = w.add_pointcloud(&pc.guid, pc.prototype.clone())?;
+                    if pc.meta.transform.is_some() {
+                        pw.set_transform(pc.meta.transform.clone());
+                    }
+                    for p in &pc.points {
+                        pw.add_point(p.clone())?;
+                    }
+                    pw.finalize()?;
+                }
+            }
+        }
+        w.finalize_customized_xml(|x| {
+            let mut y = x;
+            for (from, to) in rename {
+                y = y.replace(&format!("<{} ", from), &format!("<{} ", to)).replace(&format!("</{}>", from), &format!("</{}>", to));
+            }
+            Ok(y)
+        })
+    });
+    matches!(r, Ok(Ok(())))
+}
+
+fn c05_check_file(fc: &FileCase, idx: u64, rep: &mut Reporter, cover: &mut crate::Cover, all_opts: bool, r: &mut Rng) {
+    let mut rd = match guarded(|| E57Reader::new(Cursor::new(fc.bytes.clone()))) {
+        Ok(Ok(rd)) => rd,
+        Ok(Err(_)) => {
+            rep.stat("files_not_opened", 1);
+            return;
+        }
+        Err(p) => {
+            rep.violation("C08", &format!("panic/E57Reader::new/{}", panic_sig(&p)), idx, &p);
+            return;
+        }
+    };
+    rep.stat("files", 1);
+    for (pi, pc) in rd.pointclouds().iter().enumerate() {
+        let raw = match guarded(|| read_raw(&mut rd, pc, 1 << 22)) {
+            Ok(Ok(rr)) => rr,
+            Ok(Err(_)) => {
+                rep.stat("raw_open_failed", 1);
+                continue;
+            }
+            Err(p) => {
+                rep.violation("C08", &format!("panic/raw-iterator/{}", panic_sig(&p)), idx, &p);
+                continue;
+            }
+        };
+        rep.stat("pointclouds", 1);
+        let subset: String = {
+            let mut names: Vec<String> = pc.prototype.iter().map(|x| name_str(&x.name)).collect();
+            names.sort();
+            names.join(",")
+        };
+        cover.hit_num("attr_subset", crate::rng::hash_str(&subset) >> 8);
+        let opt_list: Vec<u8> = if all_opts {
+            (0..64u8).collect()
+        } else {
+            let mut v = vec![Opts::DEFAULT.0];
+            for _ in 0..4 {
+                v.push(r.usize(64) as u8);
+            }
+            v
+        };
+        for ob in opt_list {
+            let o = Opts(ob);
+            rep.stat("option_vectors_run", 1);
+            let sr = match guarded(|| read_simple(&mut rd, pc, o, 1 << 22)) {
+                Ok(Ok(sr)) => sr,
+                Ok(Err(e)) => {
+                    // creation failed although the raw iterator could be created: only legitimate for unusable limits (C13 domain)
+                    if e.contains("Found invalid range") && has_reversed_limits(pc) {
+                        // limits stored in the file are unusable (min > max): refusing them is not a C05 matter
+                        rep.stat("simple_open_rejected_reversed_limits", 1);
+                    } else {
+                        let cls = if e.contains("Found invalid range") { "found-invalid-range".to_string() } else { class_of(&e) };
+                        rep.violation("C05", &format!("simple-open-error/{}", cls), idx, &format!("{} pc{} opts {:06b}: {}", fc.label, pi, ob, e));
+                    }
+                    continue;
+                }
+                Err(p) => {
+                    rep.violation("C08", &format!("panic/simple-iterator/{}", panic_sig(&p)), idx, &format!("{} pc{} opts {:06b}: {}", fc.label, pi, ob, p));
+                    rep.violation("C05", &format!("panic/simple-iterator/{}", panic_sig(&p)), idx, &format!("{} pc{} opts {:06b}: {}", fc.label, pi, ob, p));
+                    continue;
+                }
+            };
+            // model over the raw items
+            let mut first_model_err: Option<(usize, &'static str)> = None;
+            let mut compared = 0u64;
+            for (k, rawp) in raw.items.iter().enumerate() {
+                match simple_point(rawp, pc, o) {
+                    Err(why) => {
+                        first_model_err = Some((k, why));
+                        break;
+                    }
+                    Ok(m) => {
+                        if k >= sr.items.len() {
+                            continue; // keep scanning: a later point may carry an out-of-set state
+                        }
+                        let hint = rawp.iter().zip(pc.prototype.iter()).map(|(v, d)| crate::readback::model_f64(v, &d.data_type).abs()).filter(|x| x.is_finite()).fold(1.0, f64::max);
+                        // non-finite inputs to a pose (also the identity pose of a cloud without one) make matrix and
+                        // quaternion forms legitimately disagree (inf*0): not judged
+                        let skip_pose = o.pose() && !rawp.iter().zip(pc.prototype.iter()).all(|(v, d)| crate::readback::model_f64(v, &d.data_type).is_finite());
+                        if skip_pose {
+                            rep.stat("points_skipped_nonfinite_pose", 1);
+                            continue;
+                        }
+                        compared += 1;
+                        if m.cart_derived {
+                            cover.hit("branch:spherical->cartesian");
+                        }
+                        if m.sph_derived {
+                            cover.hit("branch:cartesian->spherical");
+                        }
+                        if m.color_from_intensity {
+                            cover.hit("branch:intensity->color");
+                        }
+                        if m.posed {
+                            cover.hit("branch:pose");
+                        }
+                        match &m.cart {
+                            MC::Direction(_) => cover.hit("state:cartesian-direction"),
+                            MC::Invalid => cover.hit("state:cartesian-invalid"),
+                            _ => {}
+                        }
+                        if let Some(diff) = compare_point(&m, &sr.items[k], hint) {
+                            let aspect = diff.split(' ').next().unwrap_or("?").split('(').next().unwrap_or("?").to_string();
+                            rep.violation(
+                                "C05",
+                                &format!("point/{}", aspect),
+                                idx,
+                                &format!("{} pc{} point {} opts s2c={} c2s={} i2c={} ni={} nc={} pose={}: {} :: raw {}", fc.label, pi, k, o.s2c(), o.c2s(), o.i2c(), o.ni(), o.nc(), o.pose(), diff, raw_str(rawp)),
+                            );
+                            break;
+                        }
+                    }
+                }
+            }
+            rep.stat("points_compared", compared);
+            // count / termination
+            match (&first_model_err, &raw.end, &sr.end) {
+                (Some((k, why)), _, End::Err(e)) => {
+                    cover.hit(&format!("expected-failure:{}", why));
+                    if sr.items.len() > *k {
+                        rep.violation("C05", "yield-past-invalid-state", idx, &format!("{} pc{}: yielded {} items although point {} has {}", fc.label, pi, sr.items.len(), k, why));
+                    }
+                    let _ = e;
+                }
+                (Some((k, why)), _, other) => {
+                    rep.violation("C05", &format!("no-error-for/{}", why), idx, &format!("{} pc{}: point {} has {} but the simple iterator ended with {:?}", fc.label, pi, k, why, other.render()));
+                }
+                (None, End::Done, End::Done) => {
+                    if sr.items.len() != raw.items.len() {
+                        rep.violation("C05", "count", idx, &format!("{} pc{} opts {:06b}: raw yields {} simple yields {}", fc.label, pi, ob, raw.items.len(), sr.items.len()));
+                    }
+                }
+                (None, End::Done, End::Err(e)) => {
+                    rep.violation("C05", &format!("spurious-error/{}", class_of(e)), idx, &format!("{} pc{} opts {:06b}: raw iterator reads {} points without error, simple fails after {}: {}", fc.label, pi, ob, raw.items.len(), sr.items.len(), e));
+                }
+                (None, End::Err(_), End::Err(_)) => {
+                    rep.stat("both_failed", 1);
+                    if sr.items.len() > raw.items.len() {
+                        rep.violation("C05", "count-after-raw-error", idx, &format!("{} pc{}: raw yields {} then fails; simple yields {}", fc.label, pi, raw.items.len(), sr.items.len()));
+                    }
+                }
+                (None, End::Err(e), other) => {
+                    rep.violation("C05", "missed-raw-error", idx, &format!("{} pc{}: raw fails ({}) simple ends {}", fc.label, pi, e, other.render()));
+                }
+                _ => {}
+            }
+        }
+    }
+}
+
+// ------------------------------------------------------------------ C13
+
+const CHANNELS: [&str; 4] = ["intensity", "red", "green", "blue"];
+
+fn c13_case(r: &mut Rng, idx: u64, rep: &mut Reporter, cover: &mut crate::Cover) {
+    use RecordName::*;
+    let k = Knobs::base();
+    let mut proto = vec![Record::CARTESIAN_X_F32, Record::CARTESIAN_Y_F32, Record::CARTESIAN_Z_F32];
+    let gen_attr_type = |r: &mut Rng| -> RecordDataType {
+        match r.usize(8) {
+            0 => RecordDataType::Single { min: None, max: None },
+            1 => RecordDataType::Double { min: None, max: None },
+            2 => RecordDataType::Single { min: Some(0.0), max: Some(1.0) },
+            3 => {
+                let a = (r.range(-1000, 1000)) as f64 / 4.0;
+                RecordDataType::Double { min: Some(a), max: Some(a + (r.range(0, 4000)) as f64 / 4.0) }
+            }
+            4 | 5 => gen_type(r, TypeClass::IntegerOnly, &k),
+            6 => RecordDataType::U8,
+            _ => {
+                let w = r.usize(65);
+                let (mi, ma) = gen_int_range(r, w);
+                let (s, o) = (*r.pick(&[1.0, 0.001, 0.5, -0.25, 1e-9, 1e6]), *r.pick(&[0.0, -100.0, 1e7]));
+                RecordDataType::ScaledInteger { min: mi, max: ma, scale: s, offset: o }
+            }
+        }
+    };
+    let has_int = r.chance(4, 5);
+    let has_col = r.chance(3, 5);
+    if has_int {
+        proto.push(Record { name: Intensity, data_type: gen_attr_type(r) });
+    }
+    if has_col {
+        proto.push(Record { name: ColorRed, data_type: gen_attr_type(r) });
+        proto.push(Record { name: ColorGreen, data_type: gen_attr_type(r) });
+        proto.push(Record { name: ColorBlue, data_type: gen_attr_type(r) });
+    }
+    if !has_int && !has_col {
+        proto.push(Record { name: Intensity, data_type: RecordDataType::U16 });
+    }
+    let type_class = |d: &RecordDataType| match d {
+        RecordDataType::Single { min: None, .. } | RecordDataType::Single { max: None, .. } => "single-open",
+        RecordDataType::Single { .. } => "single-bounded",
+        RecordDataType::Double { min: None, .. } | RecordDataType::Double { max: None, .. } => "double-open",
+        RecordDataType::Double { .. } => "double-bounded",
+        RecordDataType::Integer { min, max } if min == max => "integer-degenerate",
+        RecordDataType::Integer { .. } => "integer",
+        RecordDataType::ScaledInteger { min, max, .. } if min == max => "scaled-degenerate",
+        RecordDataType::ScaledInteger { .. } => "scaled",
+    };
+    // limit classes
+    let limit_class = r.usize(9);
+    let lim_name = ["absent", "complete-same", "complete-mixed", "partial", "equal", "min>max", "extreme", "nonfinite", "complete-other-type"][limit_class];
+    let find = |n: RecordName, p: &[Record]| p.iter().find(|x| x.name == n).map(|x| x.data_type.clone());
+    let mk_pair = |r: &mut Rng, d: &RecordDataType, class: usize| -> (Option<RecordValue>, Option<RecordValue>) {
+        let same = |r: &mut Rng, d: &RecordDataType| -> (RecordValue, RecordValue) {
+            match d {
+                RecordDataType::Single { .. } => {
+                    let a = (r.range(-100, 100)) as f32 / 2.0;
+                    (RecordValue::Single(a), RecordValue::Single(a + (1 + r.range(0, 400)) as f32 / 2.0))
+                }
+                RecordDataType::Double { .. } => {
+                    let a = (r.range(-1000, 1000)) as f64 / 8.0;
+                    (RecordValue::Double(a), RecordValue::Double(a + (1 + r.range(0, 4000)) as f64 / 8.0))
+                }
+                RecordDataType::Integer { min, max } => {
+                    let a = gen_int_in(r, *min, *max);
+                    let b = gen_int_in(r, a, *max);
+                    (RecordValue::Integer(a), RecordValue::Integer(b))
+                }
+                RecordDataType::ScaledInteger { min, max, scale, .. } => {
+                    let a = gen_int_in(r, *min, *max);
+                    let b = gen_int_in(r, a, *max);
+                    // keep real min <= real max also for negative scales
+                    if *scale < 0.0 {
+                        (RecordValue::ScaledInteger(b), RecordValue::ScaledInteger(a))
+                    } else {
+                        (RecordValue::ScaledInteger(a), RecordValue::ScaledInteger(b))
+                    }
+                }
+            }
+        };
+        match class {
+            1 | 3 => {
+                let (a, b) = same(r, d);
+                (Some(a), Some(b))
+            }
+            2 => (Some(RecordValue::Integer(r.range(-10, 10))), Some(RecordValue::Double(20.0 + r.f64_unit() * 100.0))),
+            4 => {
+                let (a, _) = same(r, d);
+                (Some(a.clone()), Some(a))
+            }
+            5 => {
+                let (a, b) = same(r, d);
+                (Some(b), Some(a))
+            }
+            6 => match d {
+                RecordDataType::Single { .. } => (Some(RecordValue::Single(f32::MIN)), Some(RecordValue::Single(f32::MAX))),
+                RecordDataType::Double { .. } => (Some(RecordValue::Double(f64::MIN)), Some(RecordValue::Double(f64::MAX))),
+                RecordDataType::Integer { .. } => (Some(RecordValue::Integer(i64::MIN)), Some(RecordValue::Integer(i64::MAX))),
+                RecordDataType::ScaledInteger { .. } => (Some(RecordValue::ScaledInteger(i64::MIN)), Some(RecordValue::ScaledInteger(i64::MAX))),
+            },
+            7 => {
+                let nf = *r.pick(&[f64::NAN, f64::INFINITY, f64::NEG_INFINITY]);
+                if r.bool() {
+                    (Some(RecordValue::Double(nf)), Some(RecordValue::Double(1.0)))
+                } else {
+                    (Some(RecordValue::Double(0.0)), Some(RecordValue::Double(nf)))
+                }
+            }
+            8 => {
+                // both limits of one type that differs from the attribute's type
+                match d {
+                    RecordDataType::Integer { .. } | RecordDataType::ScaledInteger { .. } => (Some(RecordValue::Double(0.0)), Some(RecordValue::Double(255.0))),
+                    _ => (Some(RecordValue::Integer(0)), Some(RecordValue::Integer(255))),
+                }
+            }
+            _ => (None, None),
+        }
+    };
+    let mut meta = PcMeta::default();
+    let mut drop_lines: Vec<&'static str> = Vec::new();
+    if limit_class != 0 {
+        if let Some(d) = find(Intensity, &proto) {
+            let (a, b) = mk_pair(r, &d, limit_class);
+            meta.intensity_limits = Some(Some(IntensityLimits { intensity_min: a, intensity_max: b }));
+            if limit_class == 3 {
+                drop_lines.push(*r.pick(&["<intensityMinimum", "<intensityMaximum"]));
+            }
+        }
+        if let (Some(dr), Some(dg), Some(db)) = (find(ColorRed, &proto), find(ColorGreen, &proto), find(ColorBlue, &proto)) {
+            let (a, b) = mk_pair(r, &dr, limit_class);
+            let (c, d) = mk_pair(r, &dg, limit_class);
+            let (e, f) = mk_pair(r, &db, limit_class);
+            meta.color_limits = Some(Some(ColorLimits { red_min: a, red_max: b, green_min: c, green_max: d, blue_min: e, blue_max: f }));
+            if limit_class == 3 {
+                drop_lines.push(*r.pick(&["<colorRedMinimum", "<colorGreenMaximum", "<colorBlueMinimum", "<colorBlueMaximum"]));
+            }
+        }
+    }
+    // points: a ladder per attribute (sorted by real value), boundaries included
+    let n = 6 + r.usize(20);
+    let mut pts: Vec<RawValues> = (0..n).map(|_| tame_point(r, &proto, false)).collect();
+    for (ri, rec) in proto.iter().enumerate().skip(3) {
+        let d = &rec.data_type;
+        let mut vals: Vec<RecordValue> = (0..n).map(|_| gen_value(r, d, false)).collect();
+        // finite only
+        for v in vals.iter_mut() {
+            let x = crate::readback::model_f64(v, d);
+            if !x.is_finite() {
+                *v = match d {
+                    RecordDataType::Single { .. } => RecordValue::Single(1.25),
+                    _ => RecordValue::Double(-7.5),
+                };
+            }
+        }
+        vals.sort_by(|a, b| crate::readback::model_f64(a, d).partial_cmp(&crate::readback::model_f64(b, d)).unwrap_or(std::cmp::Ordering::Equal));
+        for (p, v) in pts.iter_mut().zip(vals.into_iter()) {
+            p[ri] = v;
+        }
+    }
+    // execute by hand (needs the line dropping transformer)
+    let dev = Dev::empty();
+    let ok = guarded(|| -> Result<()> {
+        let mut w = E57Writer::new(dev.clone(), "c13")?;
+        let mut pw = w.add_pointcloud("pc", proto.clone())?;
+        if let Some(l) = &meta.intensity_limits {
+            pw.set_intensity_limits(l.clone());
+        }
+        if let Some(l) = &meta.color_limits {
+            pw.set_color_limits(l.clone());
+        }
+        for p in &pts {
+            pw.add_point(p.clone())?;
+        }
+        pw.finalize()?;
+        w.finalize_customized_xml(|x| Ok(x.lines().filter(|l| !drop_lines.iter().any(|d| l.starts_with(d))).map(|l| format!("{}\n", l)).collect::<String>()))
+    });
+    match ok {
+        Ok(Ok(())) => {}
+        Ok(Err(e)) => {
+            rep.stat("writer_rejected", 1);
+            let _ = e;
+            return;
+        }
+        Err(p) => {
+            rep.violation("C10", &format!("panic/c13-writer/{}", panic_sig(&p)), idx, &p);
+            return;
+        }
+    }
+    let bytes = dev.bytes();
+    let mut rd = match guarded(|| E57Reader::new(Cursor::new(bytes))) {
+        Ok(Ok(rd)) => rd,
+        Ok(Err(e)) => {
+            rep.stat("not_opened", 1);
+            cover.hit(&format!("not-opened:{}", err_class(&e)));
+            return;
+        }
+        Err(p) => {
+            rep.violation("C08", &format!("panic/E57Reader::new/{}", panic_sig(&p)), idx, &p);
+            return;
+        }
+    };
+    let pcs = rd.pointclouds();
+    let pc = match pcs.first() {
+        Some(pc) => pc.clone(),
+        None => return,
+    };
+    let raw = match guarded(|| read_raw(&mut rd, &pc, 1 << 20)) {
+        Ok(Ok(rr)) if rr.end == End::Done => rr,
+        _ => {
+            rep.stat("raw_failed", 1);
+            return;
+        }
+    };
+    rep.stat("clouds", 1);
+    // channel descriptors as read back
+    let chan = |name: RecordName| pc.prototype.iter().position(|x| x.name == name);
+    let chans: [(Option<usize>, Option<RecordValue>, Option<RecordValue>); 4] = [
+        (chan(Intensity), pc.intensity_limits.as_ref().and_then(|l| l.intensity_min.clone()), pc.intensity_limits.as_ref().and_then(|l| l.intensity_max.clone())),
+        (chan(ColorRed), pc.color_limits.as_ref().and_then(|l| l.red_min.clone()), pc.color_limits.as_ref().and_then(|l| l.red_max.clone())),
+        (chan(ColorGreen), pc.color_limits.as_ref().and_then(|l| l.green_min.clone()), pc.color_limits.as_ref().and_then(|l| l.green_max.clone())),
+        (chan(ColorBlue), pc.color_limits.as_ref().and_then(|l| l.blue_min.clone()), pc.color_limits.as_ref().and_then(|l| l.blue_max.clone())),
+    ];
+    for (ni, nc) in [(true, true), (false, false), (true, false), (false, true)] {
+        let o = Opts((Opts::DEFAULT.0 & !0b11100) | if ni { 8 } else { 0 } | if nc { 16 } else { 0 }); // i2c off so that colour is the stored colour
+        let sr = match guarded(|| read_simple(&mut rd, &pc, o, 1 << 20)) {
+            Ok(Ok(sr)) => sr,
+            Ok(Err(e)) => {
+                rep.stat("simple_rejected", 1);
+                cover.hit(&format!("simple-rejected:{}:{}", lim_name, class_of(&e).chars().take(40).collect::<String>()));
+                continue;
+            }
+            Err(p) => {
+                rep.violation("C13", &format!("panic/{}", panic_sig(&p)), idx, &format!("limits={} :: {}", lim_name, p));
+                rep.violation("C08", &format!("panic/simple-iterator/{}", panic_sig(&p)), idx, &p);
+                continue;
+            }
+        };
+        if let End::Err(e) = &sr.end {
+            rep.violation("C05", &format!("spurious-error/{}", class_of(e)), idx, e);
+            continue;
+        }
+        for (ci, (pos, lmin, lmax)) in chans.iter().enumerate() {
+            let pos = match pos {
+                Some(p) => *p,
+                None => continue,
+            };
+            let norm_on = if ci == 0 { ni } else { nc };
+            let d = &pc.prototype[pos].data_type;
+            let (cands, lclass) = candidate_ranges(d, lmin, lmax);
+            cover.hit(&format!("cell:{}:{}:{}", type_class(d), lclass, if norm_on { "on" } else { "off" }));
+            let mut prev: Option<(f64, f32)> = None;
+            for (k, (rawp, sp)) in raw.items.iter().zip(sr.items.iter()).enumerate() {
+                let real = crate::readback::model_f64(&rawp[pos], d);
+                let got = match ci {
+                    0 => sp.intensity,
+                    1 => sp.color.as_ref().map(|c| c.red),
+                    2 => sp.color.as_ref().map(|c| c.green),
+                    _ => sp.color.as_ref().map(|c| c.blue),
+                };
+                let got = match got {
+                    Some(g) => g,
+                    None => {
+                        rep.violation("C13", "missing-value", idx, &format!("{} point {} not delivered", CHANNELS[ci], k));
+                        break;
+                    }
+                };
+                rep.stat("values_checked", 1);
+                if !norm_on {
+                    let want = real as f32;
+                    if want.to_bits() != got.to_bits() && !(want.is_nan() && got.is_nan()) {
+                        rep.violation("C13", &format!("unnormalised/{}", type_class(d)), idx, &format!("{} point {}: stored real {} delivered {} expected {}", CHANNELS[ci], k, real, got, want));
+                        break;
+                    }
+                    continue;
+                }
+                if !real.is_finite() {
+                    continue;
+                }
+                let detail = |what: &str| format!("{} ({}; limits {} -> {}; read-back limits [{}..{}]) point {}: stored real {:e} delivered {:e} :: {}", CHANNELS[ci], dt_str(d), lim_name, lclass, oval_str(lmin), oval_str(lmax), k, real, got, what);
+                if got.is_nan() || got.is_infinite() {
+                    rep.violation("C13", &format!("not-a-number/{}/{}", type_class(d), lclass), idx, &detail("NaN or infinite"));
+                    break;
+                }
+                if !(0.0..=1.0).contains(&got) {
+                    rep.violation("C13", &format!("outside-unit-interval/{}/{}", type_class(d), lclass), idx, &detail("outside [0,1]"));
+                    break;
+                }
+                if let Some((pr, pg)) = prev {
+                    if real > pr && got < pg {
+                        rep.violation("C13", &format!("not-monotone/{}/{}", type_class(d), lclass), idx, &detail(&format!("previous stored {:e} delivered {:e}", pr, pg)));
+                        break;
+                    }
+                }
+                prev = Some((real, got));
+                // value: must match one of the admissible ranges
+                // If one admissible range is not a range the statement defines (non-finite or reversed),
+                // the implementation may have picked exactly that one: only the invariants above are required.
+                let all_defined = cands.iter().all(|(a, b)| norm_expected(real, *a, *b).is_some());
+                let exps: Vec<f64> = cands.iter().filter_map(|(a, b)| norm_expected(real, *a, *b)).collect();
+                if all_defined && !exps.is_empty() {
+                    let ok = exps.iter().any(|e| (*e as f32 - got).abs() <= 2.0 * f32::EPSILON * e.abs() as f32 + 2e-7);
+                    if !ok {
+                        rep.violation("C13", &format!("value/{}/{}", type_class(d), lclass), idx, &detail(&format!("expected one of {:?}", exps)));
+                        break;
+                    }
+                    if cands.len() == 1 && cands[0].0 < cands[0].1 {
+                        if real <= cands[0].0 && got != 0.0 {
+                            rep.violation("C13", &format!("not-zero-at-min/{}/{}", type_class(d), lclass), idx, &detail("value at or below the minimum must give 0"));
+                            break;
+                        }
+                        if real >= cands[0].1 && got != 1.0 {
+                            rep.violation("C13", &format!("not-one-at-max/{}/{}", type_class(d), lclass), idx, &detail("value at or above the maximum must give 1"));
+                            break;
+                        }
+                        cover.hit(if real <= cands[0].0 { "boundary:at-min" } else if real >= cands[0].1 { "boundary:at-max" } else { "boundary:inside" });
+                    }
+                }
+            }
+        }
+        rep.stat("option_settings_run", 1);
+    }
+    if rep.samples < rep.max_samples {
+        rep.sample(J::obj().set("case", J::i(idx as i128)).set("prototype", J::s(proto_str(&proto))).set("limits", J::s(lim_name)).set("points", J::u(pts.len())).set("ladder_first", J::s(raw_str(&pts[0]))));
+    }
+}
+
+pub fn run(a: &Args, rep: &mut Reporter) {
+    let mode = a.get("mode").unwrap_or("c05").to_string();
+    let ext_files: Vec<String> = match a.get("filelist") {
+        Some(p) => std::fs::read_to_string(p).map(|s| s.lines().map(|l| l.to_string()).collect()).unwrap_or_default(),
+        None => Vec::new(),
+    };
+    let all_opts = !a.flag("sample-opts");
+    let (done, reason) = crate::run_cases(a, rep, |idx, cs, rep| {
+        let mut r = Rng::new(cs);
+        let mut cover = std::mem::take(&mut rep.cover);
+        if mode == "c13" {
+            c13_case(&mut r, idx, rep, &mut cover);
+        } else if !ext_files.is_empty() {
+            // externally produced files (independent encoder): one file per case index
+            if let Some(path) = ext_files.get(idx as usize) {
+                if let Ok(bytes) = std::fs::read(path) {
+                    let fc = FileCase { bytes, label: path.rsplit('/').next().unwrap_or(path).to_string() };
+                    c05_check_file(&fc, idx, rep, &mut cover, all_opts, &mut r);
+                }
+            }
+        } else if let Some(fc) = c05_make_file(&mut r, idx, &mut cover) {
+            if rep.samples < rep.max_samples {
+                rep.sample(J::obj().set("case", J::i(idx as i128)).set("file", J::s(&fc.label)).set("bytes", J::u(fc.bytes.len())).set("option_vectors", J::i(64)));
+            }
+            c05_check_file(&fc, idx, rep, &mut cover, all_opts, &mut r);
+        } else {
+            rep.stat("trivial_cases", 1);
+        }
+        rep.cover = cover;
+    });
+    rep.finish(done, reason);
 }
